@@ -309,6 +309,29 @@ def chuck_StoppingCommand(ebp, line):
         raise ProcessorError(args[1])
 
 
+# Characters bash still interprets between double quotes.
+_DOUBLE_QUOTE_ESCAPES = str.maketrans({c: "\\" + c for c in '\\"$`'})
+
+
+def _quote_scalar(val):
+    """Quote a string as a single bash word that expands to exactly that string."""
+    if val.isalnum():
+        return val
+    if "'" not in val:
+        return f"'{val}'"
+    # $'...' interprets backslash escapes, so protect backslashes too
+    return "$'" + val.replace("\\", "\\\\").replace("'", "\\'") + "'"
+
+
+def _quote_array_element(val):
+    """Quote an element of a compound array assignment."""
+    if "\x01" in val or "\x7f" in val:
+        # bash doubles these two control characters when they appear between
+        # double quotes inside a compound assignment; single quotes are safe
+        return _quote_scalar(val)
+    return f'"{val.translate(_DOUBLE_QUOTE_ESCAPES)}"'
+
+
 # Verification hook: when PKGCORE_VERIF_TRACE names a file, every protocol line the
 # processor writes to or reads from the daemon is appended to it (one JSON object
 # per line, numbered per process).  Inactive, and free, when the variable is unset.
@@ -794,13 +817,9 @@ class EbuildProcessor:
                 )
 
             if isinstance(val, (list, tuple)):
-                assign = f"{key}=({' '.join(f'[{i}]="{value}"' for i, value in enumerate(val))})"
-            elif val.isalnum():
-                assign = f"{key}={val}"
-            elif "'" not in val:
-                assign = f"{key}='{val}'"
+                assign = f"{key}=({' '.join(f'[{i}]={_quote_array_element(value)}' for i, value in enumerate(val))})"
             else:
-                assign = f"{key}=$'{val.replace("'", "\\'")}'"
+                assign = f"{key}={_quote_scalar(val)}"
 
             (plain if key in nonexported else exported).append(assign)
 
@@ -816,6 +835,16 @@ class EbuildProcessor:
             lines.append(f"export {' '.join(exported)}")
         return "\n".join(lines)
 
+    def _write_sized(self, command, data):
+        """Send a command followed by a payload the daemon reads via ``read -N``.
+
+        The daemon runs in the C locale where ``read -N`` counts bytes, so the
+        size sent is that of the payload as encoded onto the pipe, not its
+        number of characters.
+        """
+        size = len(data.encode(self.ebd_write.encoding, self.ebd_write.errors))
+        self.write(f"{command} {size}\n{data}", append_newline=False)
+
     def send_env(self, env_dict, async_req=False, tmpdir=None):
         """Transfer the ebuild's desired env (env_dict) to the running daemon.
 
@@ -830,9 +859,7 @@ class EbuildProcessor:
                 file.write(data)
             self.write(f"start_receiving_env file {path}")
         else:
-            self.write(
-                f"start_receiving_env bytes {len(data)}\n{data}", append_newline=False
-            )
+            self._write_sized("start_receiving_env bytes", data)
         os.umask(old_umask)
         return self.expect("env_received", async_req=async_req, flush=True)
 
@@ -864,7 +891,7 @@ class EbuildProcessor:
         # filter here, so that a screwy default doesn't result in resetting it
         # every time.
         data = os.pathsep.join(filter(None, paths))
-        self.write(f"set_metadata_path {len(data)}\n{data}", append_newline=False)
+        self._write_sized("set_metadata_path", data)
         if self.expect("metadata_path_received", flush=True):
             self._metadata_paths = paths
 
@@ -879,7 +906,7 @@ class EbuildProcessor:
 
         env = expected_ebuild_env(package_inst, env, depends=True)
         data = self._generate_env_str(env)
-        self.write(f"{command} {len(data)}\n{data}", append_newline=False)
+        self._write_sized(command, data)
 
         updates = None
         if self._eclass_caching:
